@@ -155,10 +155,18 @@ class EditHooks(SysHooks):
             it = sm.expr(node.iter, st)
             pair = None
             # for k in D.keys()  ==  for k in D ;  for k, v in D.items()  ==  for k in D with v = D[k]
+            vals_of = None
+            if isinstance(node.iter, ast.Call) and isinstance(node.iter.func, ast.Attribute) and not node.iter.args and node.iter.func.attr == "values" \
+                    and isinstance(node.target, ast.Name):
+                # for x in D.values()  ==  for k in D with x = D[k]
+                vals_of = sm.expr(node.iter.func.value, st)
+                it = vals_of
             if isinstance(node.iter, ast.Call) and isinstance(node.iter.func, ast.Attribute) and not node.iter.args and node.iter.func.attr in ("keys", "items"):
                 d = sm.expr(node.iter.func.value, st)
                 if node.iter.func.attr == "keys":
                     it = d
+                elif False:
+                    pass
                 elif isinstance(node.target, ast.Tuple) and len(node.target.elts) == 2 and all(isinstance(e, ast.Name) for e in node.target.elts):
                     it = d
                     pair = (node.target.elts[0].id, node.target.elts[1].id)
@@ -179,6 +187,8 @@ class EditHooks(SysHooks):
             if pair is not None:
                 s0.env[pair[0]] = elem
                 s0.env[pair[1]] = Sym(("sub", it, elem))
+            elif vals_of is not None:
+                s0.env[node.target.id] = Sym(("sub", it, elem))
             else:
                 sm.assign(node.target, elem, s0, node.lineno)
             outs = []
